@@ -53,7 +53,9 @@ class Scenario:
 
     # ---- ordering rules of system.c
     def loom_order(self):
-        return sorted(self.looms)
+        # a loom exists in the trace only through its threads
+        used = set(t["loom"] for t in self.threads)
+        return sorted(l for l in self.looms if l in used)
 
     def thread_gindex(self):
         """thread position -> gindex"""
